@@ -11,7 +11,21 @@
 // Readings of the statement:
 //
 //   - Domain: finite measurements, strictly increasing finite boundaries,
-//     1 <= MaxSize <= 160, -10 <= MaxScale <= 20.
+//     1 <= MaxSize <= 4097 (no upper limit is documented; 160 is only the
+//     default), -10 <= MaxScale <= 20.
+//   - The configuration reaches the aggregator through every documented way:
+//     NewView, a raw view function, the reader's aggregation selector, the
+//     instrument's boundaries option, nothing at all (default aggregation: the
+//     reported boundaries are then only required to be finite and strictly
+//     increasing and serve as the reference), each optionally next to a
+//     matching view that sets no aggregation. Boundary slices are lent with
+//     spare capacity and overwritten once the instrument exists: the
+//     configuration is what was passed when the call was made.
+//   - NoMinMax (documented: extrema not recorded): Min/Max are not compared,
+//     whether they are reported is only a class label; everything else is.
+//   - Instrument kinds (instrument_kinds, kinds_test.go): the Sum of kinds
+//     that may measure negative values is documented not to be collected and
+//     is not compared; Counter / ObservableCounter get non-negative values.
 //   - An int64 measurement is bucketed as float64(v): boundaries are float64
 //     and that conversion is the only comparison Go defines between the two.
 //     Integers beyond 2^53 that are not representable are therefore placed by
@@ -217,10 +231,16 @@ type instCfg struct {
 	Expo, Int         bool
 	Bounds            []float64 // explicit: the configured boundaries, increasing
 	MaxSize, MaxScale int32     // exponential
+	// NoMinMax: the aggregation is configured not to record the extrema;
+	// NoSum: the instrument kind is one whose sum is documented not to be
+	// collected. Neither field is compared then.
+	NoMinMax, NoSum bool
+	// DefaultBounds: no boundaries were configured (default aggregation)
+	DefaultBounds bool
 }
 
 func (c Case) cfg() instCfg {
-	k := instCfg{Expo: c.Expo, Int: c.Int, MaxSize: c.MaxSize, MaxScale: c.MaxScale}
+	k := instCfg{Expo: c.Expo, Int: c.Int, MaxSize: c.MaxSize, MaxScale: c.MaxScale, NoMinMax: c.NoMinMax, NoSum: kindNoSum(c.Kind), DefaultBounds: c.DefaultAgg && !c.Expo}
 	for _, b := range c.Bounds {
 		k.Bounds = append(k.Bounds, float64(b))
 	}
@@ -239,6 +259,8 @@ type runner struct {
 	rescaled, grewLeft, grewRight, nearBoundary, scaleLE0, scaleGT0, underflow, knownOffByOne bool
 	multiDown, onBound, multiBucket, sumExact, sumTol, sumRisky, emptyPoint, intBig           bool
 	intPrefixOut, intTotalOut                                                                 bool
+	sumSkippedKind, sumZeroKind, minMaxOff, minMaxDespiteOff, callbackNotRun                  bool
+	defaultOther                                                                              bool
 	nonEmptyPoints                                                                            int
 }
 
@@ -264,17 +286,36 @@ func (r *runner) exec() {
 	if c.Cumulative {
 		temporality = metricdata.CumulativeTemporality
 	}
-	rdr := sdkmetric.NewManualReader(sdkmetric.WithTemporalitySelector(func(sdkmetric.InstrumentKind) metricdata.Temporality { return temporality }))
 	bounds := make([]float64, len(c.Bounds))
 	for i, b := range c.Bounds {
 		bounds[i] = float64(b)
 	}
-	opts := []sdkmetric.Option{sdkmetric.WithReader(rdr), sdkmetric.WithResource(resource.Empty())}
+	// every boundary list handed to the SDK is lent: it has spare capacity
+	// and is scribbled over once the instrument exists (the configuration is
+	// what was passed when the call was made)
+	var lentOut [][]float64
+	lend := func(b []float64) []float64 {
+		l := make([]float64, len(b), len(b)+3)
+		copy(l, b)
+		lentOut = append(lentOut, l)
+		return l
+	}
+	aggregation := func(b []float64) sdkmetric.Aggregation {
+		if c.Expo {
+			return sdkmetric.AggregationBase2ExponentialHistogram{MaxSize: c.MaxSize, MaxScale: c.MaxScale, NoMinMax: c.NoMinMax}
+		}
+		return sdkmetric.AggregationExplicitBucketHistogram{Boundaries: lend(b), NoMinMax: c.NoMinMax}
+	}
+	ropts := []sdkmetric.ManualReaderOption{sdkmetric.WithTemporalitySelector(func(sdkmetric.InstrumentKind) metricdata.Temporality { return temporality })}
+	opts := []sdkmetric.Option{sdkmetric.WithResource(resource.Empty())}
 	switch {
-	case c.Expo:
-		opts = append(opts, sdkmetric.WithView(sdkmetric.NewView(sdkmetric.Instrument{Name: "h"},
-			sdkmetric.Stream{Aggregation: sdkmetric.AggregationBase2ExponentialHistogram{MaxSize: c.MaxSize, MaxScale: c.MaxScale}})))
-	case c.RawView && !c.ViaOption:
+	case c.DefaultAgg && !c.Expo, c.ViaOption && !c.Expo:
+		// no view: the default aggregation of a Histogram instrument, with
+		// the documented default boundaries or the ones of the instrument option
+	case c.Selector:
+		ropts = append(ropts, sdkmetric.WithAggregationSelector(func(sdkmetric.InstrumentKind) sdkmetric.Aggregation { return aggregation(bounds) }))
+		r.info.Class("aggregation_from_reader_selector")
+	case c.RawView && !c.Expo:
 		shuffled := append([]float64{}, bounds...)
 		for i, j := range c.Shuffle {
 			a, b := i%len(shuffled), ((j%len(shuffled))+len(shuffled))%len(shuffled)
@@ -284,46 +325,96 @@ func (r *runner) exec() {
 			if in.Name != "h" {
 				return sdkmetric.Stream{}, false
 			}
-			return sdkmetric.Stream{Name: in.Name, Description: in.Description, Unit: in.Unit,
-				Aggregation: sdkmetric.AggregationExplicitBucketHistogram{Boundaries: append([]float64{}, shuffled...)}}, true
+			return sdkmetric.Stream{Name: in.Name, Description: in.Description, Unit: in.Unit, Aggregation: aggregation(shuffled)}, true
 		}))
 		r.info.Class("boundaries_through_raw_view_function(shuffled)")
-	case !c.ViaOption:
-		opts = append(opts, sdkmetric.WithView(sdkmetric.NewView(sdkmetric.Instrument{Name: "h"},
-			sdkmetric.Stream{Aggregation: sdkmetric.AggregationExplicitBucketHistogram{Boundaries: append([]float64{}, bounds...)}})))
+	default:
+		opts = append(opts, sdkmetric.WithView(sdkmetric.NewView(sdkmetric.Instrument{Name: "h"}, sdkmetric.Stream{Aggregation: aggregation(bounds)})))
 	}
-	mp := sdkmetric.NewMeterProvider(opts...)
+	if c.NeutralView {
+		opts = append(opts, sdkmetric.WithView(sdkmetric.NewView(sdkmetric.Instrument{Name: "h"}, sdkmetric.Stream{Description: "a view without an aggregation"})))
+		r.info.Class("matching_view_without_aggregation")
+	}
+	rdr := sdkmetric.NewManualReader(ropts...)
+	mp := sdkmetric.NewMeterProvider(append(opts, sdkmetric.WithReader(rdr))...)
 	defer func() { _ = mp.Shutdown(ctx) }()
 	meter := mp.Meter("c07")
 
-	var recI metric.Int64Histogram
-	var recF metric.Float64Histogram
-	var err error
-	if c.Int {
-		var o []metric.Int64HistogramOption
-		if c.ViaOption && !c.Expo {
-			o = append(o, metric.WithExplicitBucketBoundaries(append([]float64{}, bounds...)...))
-		}
-		recI, err = meter.Int64Histogram("h", o...)
-	} else {
-		var o []metric.Float64HistogramOption
-		if c.ViaOption && !c.Expo {
-			o = append(o, metric.WithExplicitBucketBoundaries(append([]float64{}, bounds...)...))
-		}
-		recF, err = meter.Float64Histogram("h", o...)
-	}
-	if err != nil {
-		r.bad("setup_error", "creating the histogram: %v", err)
-		return
-	}
-	if es := sink.take(); len(es) > 0 {
-		r.bad("setup_error", "errors while creating the histogram: %q", es)
-		return
-	}
 	attrs := [2]metric.MeasurementOption{
 		metric.WithAttributeSet(attribute.NewSet()),
 		metric.WithAttributeSet(attribute.NewSet(attribute.Int("s", 1))),
 	}
+
+	// measure makes measurement n through emit and updates the model
+	measure := func(n int, emit func(m mv, set int)) {
+		op := c.Ops[n]
+		set := op.S & 1
+		m := mv{f: float64(op.F), i: op.I}
+		if c.Int {
+			m.f = float64(op.I)
+		}
+		emit(m, set)
+		dropped := 0
+		for _, e := range sink.take() {
+			if strings.Contains(e, "scale underflow") {
+				dropped++
+			} else {
+				r.bad("unexpected_error", "op %d (record %v): error reported: %s", n, r.show(m), e)
+			}
+		}
+		sm := &r.sets[set]
+		if !c.Expo {
+			if dropped > 0 {
+				r.bad("unexpected_error", "op %d: explicit histogram reported a scale underflow", n)
+			}
+			sm.kept = append(sm.kept, m)
+			return
+		}
+		fits := m.f == 0 || fitsAtMinScale(sm.kept, m.f, c.MaxSize)
+		switch {
+		case dropped > 1:
+			r.bad("unexpected_error", "op %d (record %v): %d underflow errors for one measurement", n, r.show(m), dropped)
+		case dropped == 1 && fits:
+			r.bad("spurious_underflow", "op %d: record %v reported a scale underflow (measurement dropped) although it fits in MaxSize %d buckets at scale -10 together with the %d values held", n, r.show(m), c.MaxSize, len(sm.kept))
+		case dropped == 0 && !fits:
+			r.bad("missing_underflow", "op %d: record %v cannot be placed in MaxSize %d buckets at any scale >= -10 but no underflow was reported", n, r.show(m), c.MaxSize)
+		}
+		if dropped > 0 {
+			r.underflow = true
+		}
+		if dropped == 0 {
+			sm.kept = append(sm.kept, m)
+		}
+	}
+	// the measurements of an observable instrument wait in queue until its
+	// callback runs (inside the next Collect)
+	var queue []int
+	flush := func(emit func(m mv, set int)) {
+		for _, n := range queue {
+			measure(n, emit)
+		}
+		queue = nil
+	}
+	var lentOpt []float64
+	if c.ViaOption && !c.Expo {
+		lentOpt = lend(bounds)
+	}
+	emit, err := newInstrument(ctx, meter, c, lentOpt, attrs, flush)
+	if err != nil {
+		r.bad("setup_error", "creating the instrument: %v", err)
+		return
+	}
+	if es := sink.take(); len(es) > 0 {
+		r.bad("setup_error", "errors while creating the instrument: %q", es)
+		return
+	}
+	for _, l := range lentOut {
+		l = l[:cap(l)]
+		for i := range l {
+			l[i] = float64(len(l) - i) // decreasing garbage
+		}
+	}
+	r.info.ClassIf(len(lentOut) > 0 && len(bounds) > 0, "lent_boundary_slice_scribbled_after_setup")
 
 	shared := &metricdata.ResourceMetrics{}
 	collection := 0
@@ -345,76 +436,47 @@ func (r *runner) exec() {
 		}
 	}()
 	for n, op := range c.Ops {
-		if op.C {
-			rm := shared
-			if !c.Reuse {
-				rm = &metricdata.ResourceMetrics{}
-			}
-			if err := rdr.Collect(ctx, rm); err != nil {
-				r.bad("collect_error", "Collect #%d: %v", collection, err)
-			}
-			if es := sink.take(); len(es) > 0 {
-				r.bad("collect_error", "errors reported during Collect #%d: %q", collection, es)
-			}
-			var pts []point
-			var problems []string
-			if c.Int {
-				pts, problems = extract[int64](rm)
+		if !op.C {
+			if emit == nil {
+				queue = append(queue, n)
 			} else {
-				pts, problems = extract[float64](rm)
+				measure(n, emit)
 			}
-			for _, p := range problems {
-				r.bad("wrong_data_type", "Collect #%d: %s", collection, p)
-			}
-			r.checkCollection(collection, pts)
-			if !c.Reuse {
-				kept = append(kept, retained{collection, rm, fmt.Sprintf("%+v", rm.ScopeMetrics)})
-			}
-			if !c.Cumulative {
-				r.sets[0].kept, r.sets[1].kept = nil, nil
-			}
-			collection++
 			continue
 		}
-		set := op.S & 1
-		m := mv{f: float64(op.F), i: op.I}
+		rm := shared
+		if !c.Reuse {
+			rm = &metricdata.ResourceMetrics{}
+		}
+		if err := rdr.Collect(ctx, rm); err != nil {
+			r.bad("collect_error", "Collect #%d: %v", collection, err)
+		}
+		if es := sink.take(); len(es) > 0 {
+			r.bad("collect_error", "errors reported during Collect #%d: %q", collection, es)
+		}
+		if len(queue) > 0 {
+			// the measurements were never made: nothing the statement speaks about
+			r.callbackNotRun = true
+			queue = nil
+		}
+		var pts []point
+		var problems []string
 		if c.Int {
-			m.f = float64(op.I)
-			recI.Record(ctx, op.I, attrs[set])
+			pts, problems = extract[int64](rm)
 		} else {
-			recF.Record(ctx, m.f, attrs[set])
+			pts, problems = extract[float64](rm)
 		}
-		dropped := 0
-		for _, e := range sink.take() {
-			if strings.Contains(e, "scale underflow") {
-				dropped++
-			} else {
-				r.bad("unexpected_error", "op %d (record %v): error reported: %s", n, r.show(m), e)
-			}
+		for _, p := range problems {
+			r.bad("wrong_data_type", "Collect #%d: %s", collection, p)
 		}
-		sm := &r.sets[set]
-		if !c.Expo {
-			if dropped > 0 {
-				r.bad("unexpected_error", "op %d: explicit histogram reported a scale underflow", n)
-			}
-			sm.kept = append(sm.kept, m)
-			continue
+		r.checkCollection(collection, pts)
+		if !c.Reuse {
+			kept = append(kept, retained{collection, rm, fmt.Sprintf("%+v", rm.ScopeMetrics)})
 		}
-		fits := m.f == 0 || fitsAtMinScale(sm.kept, m.f, c.MaxSize)
-		switch {
-		case dropped > 1:
-			r.bad("unexpected_error", "op %d (record %v): %d underflow errors for one measurement", n, r.show(m), dropped)
-		case dropped == 1 && fits:
-			r.bad("spurious_underflow", "op %d: record %v reported a scale underflow (measurement dropped) although it fits in MaxSize %d buckets at scale -10 together with the %d values held", n, r.show(m), c.MaxSize, len(sm.kept))
-		case dropped == 0 && !fits:
-			r.bad("missing_underflow", "op %d: record %v cannot be placed in MaxSize %d buckets at any scale >= -10 but no underflow was reported", n, r.show(m), c.MaxSize)
+		if !c.Cumulative {
+			r.sets[0].kept, r.sets[1].kept = nil, nil
 		}
-		if dropped > 0 {
-			r.underflow = true
-		}
-		if dropped == 0 {
-			sm.kept = append(sm.kept, m)
-		}
+		collection++
 	}
 }
 
@@ -456,7 +518,7 @@ func (r *runner) checkPoints(at string, cfg instCfg, cum bool, sets *[2]setModel
 			r.emptyPoint = true
 		} else {
 			r.nonEmptyPoints++
-			r.checkNumbers(where, cfg.Int, p, sm.kept)
+			r.checkNumbers(where, cfg, p, sm.kept)
 		}
 	}
 	for s := range sets {
@@ -481,7 +543,20 @@ func (r *runner) checkExplicit(where string, c instCfg, p *point, sm *setModel) 
 	for i := 0; same && i < len(p.bounds); i++ {
 		same = p.bounds[i] == c.Bounds[i]
 	}
-	if !same {
+	if c.DefaultBounds {
+		// nothing was configured: which boundaries the default aggregation
+		// uses is not part of the statement; the reported ones only have to be
+		// boundaries (finite, strictly increasing) and are then the reference
+		if !same {
+			r.defaultOther = true
+		}
+		for i, b := range p.bounds {
+			if math.IsNaN(b) || math.IsInf(b, 0) || (i > 0 && p.bounds[i-1] >= b) {
+				r.bad("explicit_bounds", "%s: the reported bounds %v of the default aggregation are not finite and strictly increasing", where, p.bounds)
+				return
+			}
+		}
+	} else if !same {
 		r.bad("explicit_bounds", "%s: reported bounds %v, configured %v", where, p.bounds, c.Bounds)
 		return
 	}
@@ -622,9 +697,23 @@ func (r *runner) compareSide(where, side string, scale int32, reported map[int64
 	r.bad("expo_bucket_mismatch", "%s: %s buckets at scale %d: reported %v, reference %v; values in differing buckets: %v", where, side, scale, reported, want, diff)
 }
 
-func (r *runner) checkNumbers(where string, isInt bool, p *point, kept []mv) {
-	if !p.hasMn || !p.hasMx {
+func (r *runner) checkNumbers(where string, cfg instCfg, p *point, kept []mv) {
+	isInt := cfg.Int
+	if cfg.NoMinMax {
+		// documented: the extrema are not recorded; nothing to compare
+		r.minMaxOff = true
+		if p.hasMn || p.hasMx {
+			r.minMaxDespiteOff = true
+		}
+		p.hasMn, p.hasMx = false, false
+	} else if !p.hasMn || !p.hasMx {
 		r.bad("minmax_missing", "%s: Min/Max not reported (NoMinMax is false)", where)
+	}
+	if cfg.NoSum {
+		r.sumSkippedKind = true
+		if p.sumI == 0 && p.sumF == 0 {
+			r.sumZeroKind = true
+		}
 	}
 	if isInt {
 		// the reference sum is the mathematical one (math/big); whether a
@@ -649,6 +738,7 @@ func (r *runner) checkNumbers(where string, isInt bool, p *point, kept []mv) {
 			r.bad("max", "%s: Max = %d, largest measurement %d", where, p.maxI, mx)
 		}
 		switch {
+		case cfg.NoSum:
 		case !sum.IsInt64():
 			r.intTotalOut = true // no int64 is the exact sum
 		case p.sumI != sum.Int64():
@@ -674,6 +764,7 @@ func (r *runner) checkNumbers(where string, isInt bool, p *point, kept []mv) {
 	}
 	ref := newSumRef(fs)
 	switch {
+	case cfg.NoSum:
 	case ref.risky:
 		r.sumRisky = true
 	case ref.exact:
@@ -714,6 +805,8 @@ func (r *runner) classify() {
 		info.ClassIf(c.MaxSize == 1, "maxsize_1")
 		info.ClassIf(c.MaxSize == 2, "maxsize_2")
 		info.ClassIf(c.MaxSize >= 100, "maxsize>=100")
+		info.ClassIf(c.MaxSize > 160, "maxsize>160")
+		info.ClassIf(c.MaxSize >= 2048, "maxsize>=2048")
 		info.ClassIf(c.MaxScale <= 0, "maxscale<=0")
 		info.ClassIf(c.MaxScale == 20, "maxscale_20")
 		info.ClassIf(r.ix.undecided > 0, "bigfloat_undecided(skipped)")
@@ -725,6 +818,26 @@ func (r *runner) classify() {
 		info.ClassIf(len(c.Bounds) >= 10, ">=10_bounds")
 		info.ClassIf(c.ViaOption, "bounds_via_instrument_option")
 	}
+	if c.Kind != "" {
+		info.Class("kind:" + c.Kind)
+		info.NonTrivial = info.NonTrivial && r.nonEmptyPoints > 0
+		info.ClassIf(c.RegCallback, "callback_via_RegisterCallback")
+		info.ClassIf(kindObservable(c.Kind) && !c.RegCallback, "callback_via_instrument_option")
+		for _, op := range c.Ops {
+			if !kindNoSum(c.Kind) && !op.C && (op.I != 0 || op.F != 0) {
+				info.Class(c.Kind + "_histogram_sum_compared(non-zero_measurement)")
+				break
+			}
+		}
+	}
+	info.ClassIf(r.sumSkippedKind, "sum_not_compared(kind_may_measure_negative)")
+	info.ClassIf(r.sumSkippedKind && r.sumZeroKind, "sum_reported_0_for_kind_that_may_measure_negative")
+	info.ClassIf(r.sumSkippedKind && !r.sumZeroKind, "sum_reported_non-zero_for_kind_that_may_measure_negative")
+	info.ClassIf(r.minMaxOff, "NoMinMax(extrema_not_compared)")
+	info.ClassIf(r.minMaxDespiteOff, "extrema_reported_despite_NoMinMax")
+	info.ClassIf(r.callbackNotRun, "observable_callback_not_run_by_collect")
+	info.ClassIf(c.DefaultAgg && !r.defaultOther, "default_aggregation(reports_the_documented_default_boundaries)")
+	info.ClassIf(c.DefaultAgg && r.defaultOther, "default_aggregation(reports_other_boundaries)")
 	info.ClassIf(c.Int, "int64")
 	info.ClassIf(!c.Int, "float64")
 	info.ClassIf(c.Cumulative, "cumulative")
@@ -747,7 +860,7 @@ func (r *runner) classify() {
 func TestExplicit(t *testing.T) {
 	vk.Run(t, vk.Spec[Case]{
 		Property: "C07", Check: "explicit_buckets",
-		Rule: "int64/float64 histogram with 0..12 strictly increasing finite boundaries (view or instrument option), delta or cumulative reader, 0..200 finite measurements (bounds +-1 ulp, powers of two, subnormals, MaxFloat64, +-0, negatives, exact k*2^e numbers) with 1..4 interleaved collections, 1..2 attribute sets; " +
+		Rule: "int64/float64 histogram with 0..12 strictly increasing finite boundaries (NewView, raw view function, reader aggregation selector, instrument option or nothing = default aggregation; optionally a matching view without aggregation; NoMinMax on/off; lent boundary slices overwritten after setup), delta or cumulative reader, 0..200 finite measurements (bounds +-1 ulp, the ends of the number type's range, powers of two, subnormals, MaxFloat64, +-0, negatives, exact k*2^e numbers) with 1..4 interleaved collections, 1..2 attribute sets; " +
 			"non-trivial = a measurement equals or is 1 ulp away from a boundary, or one data point populates >= 2 buckets; distinct = distinct case encodings",
 		Quick: 15000, Thorough: 150000,
 		Gen: genCase(false), Run: run,
@@ -757,7 +870,7 @@ func TestExplicit(t *testing.T) {
 func TestExpo(t *testing.T) {
 	vk.Run(t, vk.Spec[Case]{
 		Property: "C07", Check: "expo_buckets",
-		Rule: "int64/float64 histogram with a base-2 exponential view (MaxSize 1..160 biased to {1,2,3,4,20,160}, MaxScale -10..20), delta or cumulative reader, 0..200 finite measurements (powers of two and 320-bit bucket boundaries of the reachable scales +-0..4 ulps, occasionally up to +-40, subnormals, MaxFloat64, +-0, negatives, clustered then far-apart values, exact k*2^e numbers) with 1..4 interleaved collections, 1..2 attribute sets; " +
+		Rule: "int64/float64 histogram with a base-2 exponential view or reader aggregation selector (MaxSize 1..160 biased to {1,2,3,4,20,160}, one case in 16 from 161..4097 on a log scale; MaxScale -10..20; NoMinMax on/off), delta or cumulative reader, 0..200 finite measurements (powers of two and 320-bit bucket boundaries of the reachable scales +-0..4 ulps, occasionally up to +-40, subnormals, MaxFloat64, +-0, negatives, clustered then far-apart values, exact k*2^e numbers) with 1..4 interleaved collections, 1..2 attribute sets; " +
 			"non-trivial = a data point is reported below MaxScale (rescaled), or a value landed left of the window held so far, or a value lies within 4 ulps of a bucket boundary of the reported scale; distinct = distinct case encodings",
 		Quick: 25000, Thorough: 300000,
 		Gen: genCase(true), Run: run,
